@@ -132,10 +132,8 @@ class OperatorGraphTemplate(AbstractBaseTemplate):
         all_values = {}  # # type: Dict[OperatorIR, Dict]
 
         for template, variations in self.operators.items():
-            values_to_update = variations
-
-            if values_to_update is None:
-                values_to_update = {}
+            # (copy: values passed for this node must not end up on the template, which other nodes may share)
+            values_to_update = dict(variations) if variations else {}
             # if a value for this particular variation has been passed, overwrite the previous value
             if template.name in value_updates:
                 values_to_update.update(value_updates.pop(template.name))
